@@ -399,7 +399,7 @@ func emitScale(c *Config, in *input, sh *scaleHist, model bool) {
 	rs := h.Sx()
 	rs.List[0] = A("rhist")
 	c.Emit(T("kind", A(in.kind)), T("nt", B(h.N >= 3 && killed)), T("g", I(in.g)), T("s", I(in.s)), T("files", B(in.files)),
-		T("people", B(in.people)), T("hib", I(in.hib)), T("hibmode", A(in.hibmode)), T("thr", I(in.thr)), T("reuse", B(in.reuse)),
+		T("people", B(in.people)), T("hib", I(in.hib)), T("hibmode", A(in.hibmode)), T("thr", I(in.thr)), T("reuse", I(in.reuse)),
 		T("scale", I(1)), T("model", B(model)), secsSx(sh.secs), rs, T("obs", obs))
 }
 
@@ -410,7 +410,10 @@ func scaleParams(rng *rand.Rand, in *input, hib int) {
 	gi := rng.Intn(len(bandChoices))
 	in.g = bandChoices[gi]
 	in.s = bandChoices[rng.Intn(gi+1)]
-	in.reuse = rng.Intn(6) == 0
+	in.reuse = 0
+	if rng.Intn(6) == 0 {
+		in.reuse = 1 + rng.Intn(2)
+	}
 	in.hibmode = "none"
 	in.hib = hib
 	if hib > 0 {
@@ -797,7 +800,7 @@ func emitLinScale(c *Config, in *input, steps []dstep) {
 	in.light = true
 	obs := runPipeline(in, repo, commits)
 	c.Emit(T("kind", A(in.kind)), T("nt", B(len(steps) >= 3)), T("g", I(in.g)), T("s", I(in.s)), T("files", B(in.files)),
-		T("people", B(in.people)), T("hib", I(in.hib)), T("hibmode", A(in.hibmode)), T("thr", I(in.thr)), T("reuse", B(in.reuse)),
+		T("people", B(in.people)), T("hib", I(in.hib)), T("hibmode", A(in.hibmode)), T("thr", I(in.thr)), T("reuse", I(in.reuse)),
 		T("scale", I(1)), dlinearSx(steps), T("obs", obs))
 }
 
